@@ -127,8 +127,8 @@ def analyse_save_rows(res: RuleResult, summ) -> None:
         last_fs = max([e["i"] for e in renames + removes] + [write_done])
         ok_clear = len(clears) == 1 and clears[0]["i"] > last_fs
         res.add("C12-R3", f"save_sensors[{ext}] / the dirty flag is cleared after every file operation", ok_clear, "mysensors/persistence.py", "need_save = False is the last effect" if ok_clear else f"{len(clears)} clearing stores / not last", r["witness"] if not ok_clear else None)
-    if normal < 2:
-        raise AnalysisError(f"C12: only {normal} complete save paths for {ext} (expected the exists / not-exists variants)")
+    if normal < 1:
+        res.add("C12-R3", f"save_sensors[{ext}] / a dirty state is written", False, "mysensors/persistence.py", "no path of save_sensors writes the temp file and moves it into place")
     if failing < 4:
         raise AnalysisError(f"C12: only {failing} failing save paths for {ext}")
 
